@@ -90,10 +90,13 @@ impl KeyCampaign {
       if let Some(l3) = through_loader(&l2) {
         let ops2: Vec<Op> = ops.iter().map(|o| match o { Op::Ev(e) => Op::Ev(rename_event(&map, e)), Op::Unseen(e) => Op::Unseen(rename_event(&map, e)), Op::Reset => Op::Reset }).collect();
         st.renamed += 1;
-        return CaseA { layout: l3, layout_name: format!("{}-renamed", name), dist, ops: ops2 };
+        let written = if rng.chance(1, 4) { write_with_repeat_only(&mut rng, &l3) } else { None };
+        return CaseA { layout: l3, layout_name: format!("{}-renamed", name), dist, ops: ops2, written };
       }
     }
-    CaseA { layout, layout_name: name, dist, ops }
+    // one generated layout in four is written the way a user might: repeat modes in repeat-only entries
+    let written = if self.source != Source::Shipped && rng.chance(1, 4) { write_with_repeat_only(&mut rng, &layout) } else { None };
+    CaseA { layout, layout_name: name, dist, ops, written }
   }
 }
 
@@ -137,6 +140,7 @@ impl Campaign for KeyCampaign {
     ctx.acc.probe_n("press_swallowed", obs.p_swallowed);
     ctx.acc.probe_n("two_or_more_mappings_in_effect", obs.p_multi_in_effect);
     ctx.acc.probe_n("returned_to_rest", obs.p_rest_returns);
+    ctx.acc.probe_n("layout_written_with_repeat_only_entries", obs.written_forms); ctx.acc.count("written_form_loaded_differently_from_its_meaning", obs.written_differs); ctx.acc.count("written_form_rejected_by_the_loader", obs.written_rejected);
     match self.property {
       "C04" => ctx.acc.probe_n("fired_while_modifier_carrying_mapping_in_effect", obs.p_stale_mod_case),
       "C05" => ctx.acc.probe_n("protected_output_observed", obs.p_c05c_protected),
